@@ -69,6 +69,7 @@ pub async fn run_case(seed: u64, i: u64, out: &mut String) {
     // the first case of every shard queues everything after the stall; later ones vary the order
     let order = ["after", "half", "before"][(i % 3) as usize];
     let _ = writeln!(out, "case stall {} {} n={} order={}", seed, i, n, order);
+    crate::util::set_case_header(&format!("case stall {} {} n={} order={}", seed, i, n, order));
     let dir = work_dir().join(format!("stall{}", i));
     let certs = match Certs::generate(&dir, "c") {
         Ok(c) => c,
